@@ -102,6 +102,16 @@ class HierDictDocument(DictDocument):
                 else:
                     doc = doc.get(class_name, None)
 
+            elif message is self.REQUEST and isinstance(doc, dict) \
+                    and len(doc) == 1 \
+                    and ctx.descriptor.body_style is BODY_STYLE_BARE \
+                    and (issubclass(body_class, Array)
+                            or not issubclass(body_class, ComplexModelBase)) \
+                    and not issubclass(body_class, (Any, AnyDict)):
+                # the only key is the method name here as well, and only
+                # objects come inside a wrapper of their own.
+                doc, = doc.values()
+
             if doc is None and message is self.REQUEST and \
                           ctx.descriptor.body_style is not BODY_STYLE_BARE:
                 # a null message is a message without any of its members: the
